@@ -105,8 +105,9 @@ prop("C14", "A reset or pooled context behaves like a new one", [
     ("never_handed_out_twice", "never_handed_out_twice", "so an object is never handed out while someone holds it"),
     ("reset_returns_all", "reset_returns_all", "Reset resets and puts back exactly the objects the context borrowed, once each, in order"),
     ("reset_holds_nothing", "reset_holds_nothing", "and holds nothing afterwards"),
+    ("released_context_is_reset_first", "ctxpool_resets_before_pooling", "CtxPool.Put (calls regenerated from ctx_pool.go on every run) resets the context, which returns its borrowed objects, before it hands the context to the pool"),
     ("unknown_pool_is_noop", "acquire_unknown", "an unknown pool name acquires nothing"),
-])
+], imports=IMPORTS + "From Dec Require Import AuditDefs.\nFrom Dec.generated Require Import Audit.\nFrom Dec.proofs Require Import AuditFacts.\n")
 
 prop("C15", "A failing rule stops the decode and the failure is reported", [
     ("user_error_is_last_call", "user_error_is_last_call", "FULL STATEMENT (calls): for every program and fuel, with user functions that report their own call number, a decode that returns a user function's error made no call after the failing one -- no callback, getter, modifier or helper of any later rule, iteration or case"),
